@@ -383,6 +383,13 @@ class Ev:
             f = _CMP.get(type(op))
             if f is None:
                 raise Unknown("cmp")
+            if isinstance(op, (ast.Eq, ast.NotEq)) and getattr(self, "model_objects", False) \
+                    and any(isinstance(x, Instance) and x.attrs is not None for x in (left, right)):
+                res = self._object_eq(left, right) if isinstance(left, Instance) and left.attrs is not None else self._object_eq(right, left)
+                if (not res) if isinstance(op, ast.Eq) else res:
+                    return False
+                left = right
+                continue
             try:
                 if not f(left, right):
                     return False
@@ -390,6 +397,22 @@ class Ev:
                 raise Raised("TypeError", n)
             left = right
         return True
+
+    def _object_eq(self, obj, other):
+        """obj == other for a modelled object: its class's __eq__ evaluated on its attributes, identity without one"""
+        c_, m_ = self.repo.find_method(obj.ci, "__eq__")
+        if m_ is None:
+            return obj is other
+        env = {"self." + k: v for k, v in obj.attrs.items()}
+        ps = [a.arg for a in m_.args.args]
+        env[ps[1]] = other
+        sub = self._mk(c_.mod, env, obj.ci, self.depth + 1)
+        sub.model_objects = True
+        r = sub.run_block(m_.body)
+        v = r[1] if isinstance(r, tuple) else None
+        if v is NotImplemented or v is None:
+            return obj is other
+        return bool(v)
 
     def ev_IfExp(self, n):
         return self.ev(n.body) if self.ev(n.test) else self.ev(n.orelse)
@@ -717,6 +740,22 @@ class Ev:
                 return h_(args)
             if self.is_enum(f.ci):
                 raise Unknown("enum lookup by value %s" % f.ci.name)
+            if getattr(self, "model_objects", False):
+                # opt-in: the object's state is what its constructor leaves in self.* (folded from the source)
+                c_i, m_i = self.repo.find_method(f.ci, "__init__")
+                if m_i is not None:
+                    try:
+                        sub = self._mk(c_i.mod, {}, f.ci, self.depth + 1)
+                        sub.model_objects = True
+                        sub.ignore_calls = self.ignore_calls
+                        for k_, v_ in sub._bindargs(m_i, ["<self>"] + list(args), kw):
+                            if k_ != "self":
+                                sub.env[k_] = v_
+                        sub.run_block(m_i.body)
+                        return Instance(f.ci, label="%s#%d" % (f.ci.name, id(sub)),
+                                        attrs={k[5:]: v for k, v in sub.env.items() if isinstance(k, str) and k.startswith("self.") and k.count(".") == 1})
+                    except Unknown:
+                        pass
             return Instance(f.ci)           # an object of that class; nothing but its class is known
         raise Unknown("call %s" % fname)
 
